@@ -83,8 +83,8 @@ def group(e, first_age):
     txt = _fmt(m) if kind == 'timed' else ('%d' % m if kind == 'multi' else '%.2f' % m)
     calls = []
 
-    def add(path, args, kw=None, better_args=None):
-        calls.append((path, tuple(args), kw or {}, tuple(better_args) if better_args else None))
+    def add(path, args, kw=None, better_args=None, first_only=False):
+        calls.append((path, tuple(args), kw or {}, tuple(better_args) if better_args else None, first_only))
     young = sorted(first_age.get(e, {35}))
     for G in 'MF':
         g = G.lower()
@@ -111,6 +111,37 @@ def group(e, first_age):
         add('athlib.athlon_score', ('M', e, m, None, True), None, ('M', e, better, None, True))
     add('athlib.sportshall_score', (e, txt), None, (e, _fmt(better) if kind == 'timed' else '%.2f' % better))
     add('athlib.qkids_score', ('QKSEC', e, m), None, ('QKSEC', e, better))
+    # calls that are REFUSED (wrong type or value of one argument, a code without a distance, an untabulated implement): whatever a refused call leaves
+    # behind must not change later answers.  And graders the caller builds on table files of their own through the public constructors.
+    for G in 'MF':
+        g = G.lower()
+        add('athlib.athlon_score', (G, e, 'abc'), first_only=True)
+        add('athlib.athlon_score', (G, e, None), first_only=True)
+        add('athlib.athlon_score', (G, e, m, 'x'), first_only=True)
+        add('athlib.athlon_performance_needed', (G, e, 'abc'), first_only=True)
+        add('athlib.wma_age_factor', (g, 50, 'XC'), first_only=True)
+        add('athlib.wma_age_factor', (g, 50, 'SP4K'), first_only=True)
+        add('athlib.wma_age_factor', (g, 'x', e), first_only=True)
+        add('athlib.wma_age_grade', (g, 50, e, 'abc'), first_only=True)
+        add('athlib.wma_age_grade', (g, 50, e, 0), first_only=True)
+        add('athlib.wma_world_best', (g, 'XC'), first_only=True)
+        add('athlib.wma_athlon_age_factor', (G, 'x', e), first_only=True)
+        add('athlib.tyrving_score', (G, 15, e, 'abc'), first_only=True)
+        add('athlib.tyrving_score', (G, 99, e, txt), first_only=True)
+        add('athlib.bulgarian_score', ('U16', G, e, 'abc'), first_only=True)
+        add('athlib.hungarian_score:score', (G, 'OUT', e, 'abc'), first_only=True)
+        add('athlib.get_specific_event_code', (e, G, None), first_only=True)
+        add('verif:own_athlon_grader_factor', (G, 52, e), first_only=True)
+        add('verif:fresh_grader_factor', ('2015', g, 52, e), first_only=True)
+        add('verif:other_table_grader_factor', (g, 52, e), first_only=True)
+    add('athlib.athlon_score', ('M', '800', '2:05.30', None, True), first_only=True)
+    add('athlib.wma_world_best', ('q', e), first_only=True)
+    add('athlib.qkids_score', ('NOPE', e, m), first_only=True)
+    add('athlib.sportshall_score', (e, 'abc'), first_only=True)
+    add('athlib.check_performance_for_discipline', (e, 'abc'), first_only=True)
+    add('athlib.check_performance_for_discipline', (e, ''), first_only=True)
+    add('athlib.normalize_event_code', ('%% ' + e,), first_only=True)
+    add('athlib.discipline_sort_key', (None,), first_only=True)
     add('athlib.normalize_event_code', (e.lower(),))
     add('athlib.get_distance', (e,))
     add('athlib.discipline_sort_key', (e,))
@@ -152,7 +183,7 @@ def _work(chunk):
             st.restore(pristine)
             alone.append(out(c[:3]))
         for j, b in enumerate(calls):
-            if b[0] not in targets:
+            if b[0] not in targets or b[4]:
                 continue
             twin = (b[0], b[3], b[2]) if (b[3] and b[0] in SCORERS) else None
             if twin:
@@ -195,6 +226,9 @@ def _work(chunk):
 
 def part(rep, pid, tier='quick'):
     evs, first_age = events()
+    if pid == 'C15':
+        # C15 is about distances that are not tabulated: its groups are such codes only (the tabulated rows are C14's)
+        evs = ['7K', '2400', '5.3M', '7000', '11K', '30', '300000', '9.3M', '1609', '3.1M']
     groups = [group(e, first_age) for e in evs]
     _G.clear()
     _G['groups'] = groups
